@@ -2,13 +2,16 @@
 import math
 import re
 import struct
+import sys
 from decimal import Decimal
 
 from .sx import Sym, d_str
 
 RULE = ('doubles by bit pattern: every power of ten 1e-323..1e308 and its neighbours by 1 and 2 ulps, digit-count and '
         'trailing-zero patterns around 1e6 and 1e16, integers up to 2^64, subnormals, specials, seeded random bit patterns; '
-        'non-trivial = finite d >= 1e6 (the rewriting branch) or a special; distinct by bits')
+        'non-trivial = finite d >= 1e6 (the rewriting branch) or a special; distinct by bits; plus every rendering site (text and '
+        'OpenMetrics sample values, exemplar values with and without timestamp, histogram le labels in both bound orders) on a fixed '
+        'list of 21 doubles')
 TRUSTED = ['CPython repr(float) (shortest round-trip repr; shape D{7,}.D+ for 1e6<=d<1e16 is re-validated on every generated case)',
            'CPython float(str) used by the direct oracle']
 ASSUMPTIONS = ['float(repr(x)) == x and float() depends only on the denoted decimal value (CPython facts; checked per case, not proved)']
@@ -21,6 +24,15 @@ def bits(d):
 
 def frombits(b):
     return struct.unpack('<d', struct.pack('<Q', b & 0xFFFFFFFFFFFFFFFF))[0]
+
+
+def run(ctx, rep, corpus):
+    from .engine import generic_loop
+    for v in site_check():
+        rep.violate(dict(site=v.split(':')[0]), v)
+    rep.count('rendering_sites_checked', 5)
+    generic_loop(sys.modules[__name__], ctx, rep, corpus)
+    generic_loop(sys.modules[__name__], ctx, rep, cases(ctx))
 
 
 def cases(ctx):
@@ -83,6 +95,76 @@ def cases(ctx):
         e = rng.randrange(0, 16)
         for b in emit(bits(float(m * 10 ** e))):
             yield b
+
+
+SITE_VALUES = [0.0, -0.0, 1.0, 2.5, 1e6, 2.5e6, 1e10, 1.5e10, 123456789012.0, 1e15, 9007199254740993.0, 1e16, 1e22,
+               float('inf'), float('-inf'), float('nan'), 1234567.125, 5e-324, -1e6, -1.5e10, 0.1]
+
+
+def site_tokens(vals):
+    """Every place the library renders a float, for the given doubles: returns list of (site, double, token)."""
+    import re as _re
+    from prometheus_client import CollectorRegistry, Histogram, core
+    from prometheus_client.exposition import generate_latest
+    from prometheus_client.openmetrics.exposition import generate_latest as om_latest
+    from prometheus_client.samples import Exemplar
+    out = []
+    # sample values (text + OpenMetrics), exemplar values with and without timestamp
+    reg = CollectorRegistry(auto_describe=False)
+    fams = []
+    for i, d in enumerate(vals):
+        g = core.GaugeMetricFamily('g%d' % i, 'h')
+        g.add_metric([], d)
+        c = core.CounterMetricFamily('c%d' % i, 'h')
+        c.add_metric([], 1.0, exemplar=Exemplar({'a': 'b'}, d))
+        c2 = core.CounterMetricFamily('d%d' % i, 'h')
+        c2.add_metric([], 1.0, exemplar=Exemplar({'a': 'b'}, d, 1.5))
+        fams += [g, c, c2]
+
+    class C:
+        def collect(self):
+            return fams
+    reg.register(C())
+    text = generate_latest(reg).decode()
+    om = om_latest(reg).decode()
+    for i, d in enumerate(vals):
+        m = _re.search(r'^g%d (\S+)$' % i, text, _re.M)
+        out.append(('text-sample', d, m.group(1) if m else None))
+        m = _re.search(r'^g%d (\S+)$' % i, om, _re.M)
+        out.append(('om-sample', d, m.group(1) if m else None))
+        m = _re.search(r'^c%d_total 1\.0 # \{a="b"\} (\S+)$' % i, om, _re.M)
+        out.append(('om-exemplar', d, m.group(1) if m else None))
+        m = _re.search(r'^d%d_total 1\.0 # \{a="b"\} (\S+) 1\.5$' % i, om, _re.M)
+        out.append(('om-exemplar-ts', d, m.group(1) if m else None))
+    # histogram le labels through the instrumentation class, bounds in the given order
+    finite = [d for d in vals if d == d and abs(d) != float('inf')]
+    bounds = sorted(set(finite), key=lambda x: (x, math.copysign(1.0, x)))
+    # equal doubles (0.0, -0.0) are kept as separate bounds in both orders
+    for order in (bounds, sorted(bounds, key=lambda x: (x, -math.copysign(1.0, x)))):
+        try:
+            reg2 = CollectorRegistry()
+            h = Histogram('h', 'h', buckets=list(order), registry=reg2)
+            h.observe(1.0)
+            les = [s.labels['le'] for f in reg2.collect() for s in f.samples if s.name == 'h_bucket']
+            for d, le in zip(list(order) + [float('inf')], les):
+                out.append(('histogram-le', d, le))
+        except ValueError:
+            pass
+    return out
+
+
+def site_check():
+    """direct oracle over every rendering site; returns list of violation strings"""
+    bad = []
+    for vals in (SITE_VALUES, list(reversed(SITE_VALUES))):
+        for site, d, tok in site_tokens(vals):
+            if tok is None:
+                bad.append('%s: rendering of %r not found in the output' % (site, d))
+                continue
+            r = direct(bits(d), tok)
+            if r:
+                bad.append('%s: %s' % (site, r))
+    return bad
 
 
 def impl(b):
@@ -173,3 +255,12 @@ def classify(b, out):
 
 def neighbours(b):
     return [(b + k) & 0xFFFFFFFFFFFFFFFF for k in (-2, -1, 1, 2)]
+
+
+def replay(ctx, rep, case):
+    from .engine import process
+    if isinstance(case, dict):
+        for v in site_check():
+            rep.violate(dict(site=v.split(':')[0]), v)
+    else:
+        process(sys.modules[__name__], ctx, rep, case)
